@@ -89,7 +89,9 @@ def _run(lk, arg, shift, buf, onerr=False):
         return ('error', 'ParseError', None), None
 
 
-JUNK = [('', ''), ('\n', ''), ('a', ' '), ('(', ')'), (' ', '\n'), ('#', 'x'), ('', '\n\n'), ('ab\n', '')]
+# the quick tier uses the first four: no junk, suffix only (the window starts at offset 0, and [0, 0) for the empty text), both without
+# newlines, a prefix that moves the line
+JUNK = [('', ''), ('', '\n\n'), ('a', ' '), ('(\n', ')'), ('\n', ''), (' ', '\n'), ('#', 'x'), ('ab\n', '')]
 
 
 def _body(rec, cs, jk, ri, onerr):
